@@ -9,6 +9,8 @@ import (
 )
 
 func runC20(c *Ctx, r *Report) {
+	r.Rule("C20.R9", "completion keeps what follows the cursor: on every successful return of the completion callback the new line is a concatenation ending in line[pos:]")
+	c.checkCompletionKeepsTail(r, "C20.R9")
 	r.Rule("C20.R8", "every definition reaches the index: every path through object.record either takes the `ids == nil` edge or calls Trie.Insert with the key parameter itself, and Environment.create calls record")
 	c.checkRecordInserts(r, "C20.R8")
 	r.Rule("C20.R1", "terminal marking: on every path through one iteration of Insert's byte loop on which the byte is the last of the word, the child reached is marked as a word: the shared end marker is stored, a node is created with valid=true, or valid=true is stored on the existing node")
@@ -633,4 +635,40 @@ func (c *Ctx) checkRecordInserts(r *Report, rule string) {
 	create := c.SSAFn(c.Fn("object", "Environment.create"))
 	r.Check(len(callsIn(create, c.Fn("object", "record"))) > 0, rule, ssaFuncName(create), "new top level names are recorded", c.Pos(create.Pos()),
 		"Environment.create no longer calls record(): new globals never reach the completion index")
+}
+
+// checkCompletionKeepsTail: rule C20.R9, completion extends what was typed and keeps the rest.
+//
+// The callback's first result replaces the whole line. On every return with ok == true that result is a
+// concatenation whose last operand is line[pos:] (the text after the cursor), line and pos being the
+// callback's own parameters.
+func (c *Ctx) checkCompletionKeepsTail(r *Report, rule string) {
+	fn := c.SSAFn(c.Fn("repl", "AutoComplete.autoCompleteCallback"))
+	if fn == nil || len(fn.Params) < 4 {
+		r.Undecided("%s: AutoComplete.autoCompleteCallback(t, line, pos) not found", rule)
+		return
+	}
+	line, pos := fn.Params[2], fn.Params[3]
+	n := 0
+	for _, b := range fn.Blocks {
+		ret, ok := b.Instrs[len(b.Instrs)-1].(*ssa.Return)
+		if !ok || len(ret.Results) != 3 {
+			continue
+		}
+		if k, isK := ret.Results[2].(*ssa.Const); isK && k.Value != nil && k.Value.ExactString() == "false" {
+			continue
+		}
+		n++
+		good := false
+		if add, ok := ret.Results[0].(*ssa.BinOp); ok && add.Op == token.ADD {
+			if sl, ok := add.Y.(*ssa.Slice); ok && sl.X == ssa.Value(line) && sl.Low == ssa.Value(pos) && sl.High == nil {
+				good = true
+			}
+		}
+		r.Check(good, rule, ssaFuncName(fn), "the completed line #"+itoa(n)+" ends with the text after the cursor", c.Pos(ret.Pos()),
+			"the new line returned with ok == true is not `... + line[pos:]`: the terminal replaces the whole line with it, so what the user had typed after the cursor is deleted by the completion")
+	}
+	if n == 0 {
+		r.Undecided("%s: no successful return found in the completion callback", rule)
+	}
 }
